@@ -249,6 +249,34 @@ impl<'a> W<'a> {
             }
             self.t.emit("q_pages", json!({"what": format!("farms of {}", self.s.dsym(&lp)), "limit": limit, "all": all, "paged": paged, "page_sizes": sizes}));
         }
+        // farms by reward denom, and each farm by its identifier
+        let every = self.s.q_farms();
+        let mut denoms: Vec<String> = every.iter().map(|f| f.farm_asset.denom.clone()).collect();
+        denoms.sort(); denoms.dedup();
+        for d in denoms {
+            let all: Vec<String> = { let mut v: Vec<String> = every.iter().filter(|f| f.farm_asset.denom == d).map(|f| f.identifier.clone()).collect(); v.sort(); v };
+            let (mut paged, mut sizes, mut start_after) = (vec![], vec![], None::<String>);
+            loop {
+                let r: Result<fm::FarmsResponse, String> = self.s.query(&self.s.farm, &fm::QueryMsg::Farms { filter_by: Some(FarmsBy::FarmAsset(d.clone())), start_after: start_after.clone(), limit: Some(limit) });
+                let Ok(r) = r else { break };
+                if r.farms.is_empty() { break; }
+                sizes.push(r.farms.len());
+                start_after = Some(r.farms.last().unwrap().identifier.clone());
+                paged.extend(r.farms.iter().map(|f| f.identifier.clone()));
+                if paged.len() > 1000 { break; }
+            }
+            self.t.emit("q_pages", json!({"what": format!("farms paying {}", self.s.dsym(&d)), "limit": limit, "all": all, "paged": paged, "page_sizes": sizes}));
+        }
+        for f in every.iter().take(6) {
+            let r: Result<fm::FarmsResponse, String> = self.s.query(&self.s.farm, &fm::QueryMsg::Farms { filter_by: Some(FarmsBy::Identifier(f.identifier.clone())), start_after: None, limit: Some(limit) });
+            let got: Vec<String> = r.map(|r| r.farms.iter().filter(|g| *g == f).map(|g| g.identifier.clone()).collect()).unwrap_or_default();
+            self.t.emit("q_pages", json!({"what": format!("farm {}", f.identifier), "limit": limit, "all": [f.identifier.clone()], "paged": got.clone(), "page_sizes": [got.len()]}));
+        }
+        for q in self.s.q_positions().iter().take(6) {
+            let r: Result<fm::PositionsResponse, String> = self.s.query(&self.s.farm, &fm::QueryMsg::Positions { filter_by: Some(PositionsBy::Identifier(q.identifier.clone())), open_state: None, start_after: None, limit: Some(limit) });
+            let got: Vec<String> = r.map(|r| r.positions.iter().filter(|g| *g == q).map(|g| g.identifier.clone()).collect()).unwrap_or_default();
+            self.t.emit("q_pages", json!({"what": format!("position {}", q.identifier), "limit": limit, "all": [q.identifier.clone()], "paged": got.clone(), "page_sizes": [got.len()]}));
+        }
         // positions by receiver and open state
         for ui in 1..NUSERS {
             let u = self.user(ui);
@@ -762,6 +790,65 @@ fn sc_claim_schedule_twins(rng: &mut StdRng, t: &mut Tracer, nsched: usize) {
 }
 
 /// the limit of ten open and ten closed positions per user
+/// every validated field of UpdateConfig at its boundary, by the owner; a farm and a position exist meanwhile (S_ guards)
+fn sc_config_update_shapes(t: &mut Tracer) {
+    let mut w = W::new(SysCfg::default(), 1, t, "config_update_shapes");
+    const MONTH: u64 = 2_629_746;
+    let lp = w.lps[0].clone();
+    let (o, b) = (w.user(0), w.user(1));
+    let f = w.fee_funds(&coin(8000, "uweth"));
+    w.create_farm(&o, &lp, Some(1), Some(9), coin(8000, "uweth"), Some("f".into()), &f);
+    w.pos_create(&b, Some("p".into()), 10 * DAY, None, &[coin(1000, lp.clone())]);
+    let upd = |min: Option<u64>, max: Option<u64>, exp: Option<u64>, pen: Option<Decimal>, buf: Option<u32>| fm::ExecuteMsg::UpdateConfig {
+        fee_collector_addr: None, epoch_manager_addr: None, pool_manager_addr: None, create_farm_fee: None, max_concurrent_farms: None,
+        max_farm_epoch_buffer: buf, min_unlocking_duration: min, max_unlocking_duration: max, farm_expiration_time: exp, emergency_unlock_penalty: pen };
+    w.fm_update_config(&o, upd(Some(YEAR + 1), None, None, None, None), "min above max", &[]);
+    w.fm_update_config(&o, upd(None, Some(DAY - 1), None, None, None), "max below min", &[]);
+    w.fm_update_config(&o, upd(Some(20 * DAY), Some(10 * DAY), None, None, None), "both, crossed", &[]);
+    w.fm_update_config(&o, upd(Some(40 * DAY), Some(40 * DAY), None, None, None), "both, equal, above the old max? no: within", &[]);
+    w.fm_update_config(&o, upd(Some(2 * YEAR), Some(3 * YEAR), None, None, None), "both raised above the old max", &[]);
+    w.fm_update_config(&o, upd(None, None, Some(MONTH - 1), None, None), "expiry below a month", &[]);
+    w.fm_update_config(&o, upd(None, None, Some(MONTH), None, None), "expiry a month", &[]);
+    w.fm_update_config(&o, upd(None, None, None, Some(Decimal::percent(100)), None), "penalty 100%", &[]);
+    w.fm_update_config(&o, upd(None, None, None, Some(Decimal::from_atomics(1_000_000_000_000_000_001u128, 18).unwrap()), None), "penalty above 100%", &[]);
+    w.fm_update_config(&o, upd(None, None, None, None, Some(0)), "buffer 0", &[]);
+    w.fm_update_config(&o, upd(None, None, None, Some(Decimal::percent(10)), Some(14)), "back to normal", &[coin(1, "uom")]);
+    w.fm_update_config(&b, upd(None, None, Some(2 * MONTH), None, None), "expiry by a stranger", &[]);
+    // the position opened under the old range still closes and pays out
+    w.advance(DAY);
+    w.claim(&b, None, &[]);
+    w.pos_close(&b, "u-p", None, &[]);
+    w.pos_withdraw(&b, "u-p", Some(true), &[]);
+}
+
+/// instantiate validation of the farm manager: every class of the four validated fields (S_ guards)
+fn sc_instantiate_shapes(t: &mut Tracer) {
+    let mut w = W::new(SysCfg::default(), 1, t, "instantiate_shapes");
+    const MONTH: u64 = 2_629_746;
+    let hundred = Decimal::percent(100);
+    let over = Decimal::from_atomics(1_000_000_000_000_000_001u128, 18).unwrap();
+    let shapes: Vec<(u32, u64, u64, u64, Decimal)> = vec![
+        (1, DAY, YEAR, MONTH, Decimal::percent(10)),
+        (0, DAY, YEAR, MONTH, Decimal::percent(10)),
+        (2, DAY, DAY, MONTH, Decimal::percent(10)),
+        (2, DAY + 1, DAY, MONTH, Decimal::percent(10)),
+        (2, 0, 0, MONTH, Decimal::zero()),
+        (2, DAY, YEAR, MONTH - 1, Decimal::percent(10)),
+        (2, DAY, YEAR, MONTH + 1, Decimal::percent(10)),
+        (2, DAY, YEAR, 0, Decimal::percent(10)),
+        (2, DAY, YEAR, MONTH, hundred),
+        (2, DAY, YEAR, MONTH, over),
+        (2, DAY, YEAR, MONTH, Decimal::percent(250)),
+        (2_000_000_000, 1, u64::MAX, u64::MAX, hundred),
+    ];
+    for (mf, lo, hi, exp, pen) in shapes {
+        let r = w.s.try_instantiate_farm(mf, lo, hi, exp, pen);
+        let body = json!({"ok": r.is_ok(), "errtext": r.as_ref().err().cloned().unwrap_or_default(),
+            "cfg": {"maxFarms": mf, "minDur": limbs64(lo), "maxDur": limbs64(hi), "expiry": limbs64(exp), "penalty": dec(pen)}});
+        w.t.emit("fm_instantiate", body);
+    }
+}
+
 fn sc_position_limits(t: &mut Tracer) {
     let mut w = W::new(SysCfg::default(), 1, t, "position_limits");
     let lp = w.lps[0].clone();
@@ -1008,6 +1095,8 @@ pub fn run(rng: &mut StdRng, thorough: bool, t: &mut Tracer) {
     sc_many_farms_exact_thirds_long_farm(t);
     sc_alternating_lp_positions(t);
     sc_unlock_range_narrowed(t);
+    sc_instantiate_shapes(t);
+    sc_config_update_shapes(t);
     sc_position_limits(t);
     sc_claim_schedule_twins(rng, t, if thorough { 8 } else { 4 });
     // seeded random histories
